@@ -8,7 +8,7 @@ def check(ctx):
     if not ok:
         ctx.violation("proof obligation for C07 no longer checks", {"broken": [n for n, o, _ in ctx.obligations if not o]}, found_input=False)
     # the #skip token at every position of every emitted type: V1 compares the complete emitted type expressions
-    gencore.v1(ctx, 300 if ctx.tier == "quick" else 3000)
+    gencore.v1(ctx, 300 if ctx.tier == "quick" else 3000, which=("opt", "raw"))
     # consumed offsets, then the spans of every rule token, against the PEG spec / pest
     gencore.analyze(ctx, ctx.tier, "offset")
     cov_off = dict(ctx.coverage)
@@ -27,6 +27,9 @@ def check(ctx):
         return rtcat.c_vs_ref(f["C"], a)
     core.scan(ctx, envs, run, ("bounds",), t3_skip, lambda sid, f, a: " " in bytes.fromhex(f["_hex"] if f["_hex"] != "-" else "").decode("utf8", "replace"),
               "implicit skipping off its spec (runtime repetition / sequence)")
+    from .C20 import raw_path
+    raw_path(ctx, ctx.tier)          # atomicity / skipping under the un-optimized generator path (pest_optimizer = false)
+    ctx.known = [k for k in ctx.known if "optimizer_rewrote_rule" not in k]
     # one KNOWN-FINDING line per class
     ctx.known = ctx.known[:1]
     ctx.rule = ("kind-nesting family: k1{ k2{ body } } (thorough: k1{ k2{ k3{ body } } }) for all tuples of the five rule kinds x bodies "
